@@ -153,6 +153,7 @@ def run(ctx):
     ctx.check(disp == want and prod == want, "F6-labels", f"exporter {sorted(disp)} / importer {sorted(prod)}", func=exp, construct="alignment-labels",
               msg=f"exporter handles {sorted(disp)}, importer produces {sorted(prod)}; both must be {sorted(want)}")
     X.rule_signature_dedupe_siblings(ctx)
+    X.rule_tick_provenance(ctx)
     # ---- generic
     fs = [exp, prog.func(f"{EM}:save_match"), pp, imp, na, prog.func(f"{IM}:load_match"), prog.func(f"{IM}:load_matchfile")]
     G.rule_F7a(ctx, fs)
